@@ -295,6 +295,11 @@ class Port_Matcher
         {
             if(strncmp(msg, fixed[i].c_str(), fixed[i].length()))
                 return false;
+            //unless the port is a subtree ("name/"), its name must span the
+            //whole address and not just be a prefix of it
+            if((fixed[i].empty() || fixed[i].back() != '/') &&
+                    msg[fixed[i].length()])
+                return false;
             if(arg_spec[i])
                 return rtosc_match_args(arg_spec[i], msg);
             else
